@@ -176,4 +176,29 @@ Proof.
   destruct (match C05.Model.r_chans r with Some _ => _ | None => _ end) as [ids|]; [|discriminate].
   injection Hrec as <-. cbn [C05.Model.t_best]. rewrite Ebest, amps_agree. symmetry. apply argmax_agree.
 Qed.
+(* ---------- composition with C09_spike_amps: every scaled spike amplitude in terms of the C05 record ---------- *)
+Theorem link_spike_amps : forall (i : amp_in) (d : C05.Model.dataset) (factor : Q) (o : amp_out QN)
+    (k : nat) (s a : Z) (rec : C05.Model.trec),
+  amplitudes_true_Q i (QF factor) = Some o ->
+  (forall s', In s' (ai_spikes i) -> s' < ai_nwav i) ->
+  nth_error (ai_spikes i) k = Some s -> nth_error (ai_amps i) k = Some a ->
+  C05.Model.d_cols d = None -> 0 <= C05.Model.d_nclosest d ->
+  C05.Model.d_wmi d = ai_wmi i -> C05.Model.d_scale d = 1 ->
+  C05.Model.d_templates d = map (transpose (length (ai_wmi i))) (ai_data i) ->
+  C05.Model.get_template argsort d (C05.Model.default_request (Z.to_nat s)) = Some rec ->
+  exists q, nth_error (ao_spike o) k = Some (Some q) /\
+            (q == inject_Z a * inject_Z (nth 0%nat (C05.Model.t_amplitude rec) 0%Z) * factor)%Q.
+Proof.
+  intros i d factor o k s a rec H Hlt Hs Ha Hc Hnc HW Hsc Hd Hrec.
+  destruct (spike_amps_thm i factor o H Hlt) as [_ Hsp].
+  destruct (Hsp k s a Hs Ha) as (t & au & q & Ht & Hau & Hq & Eq).
+  destruct (amplitudes_true_Q_unfold _ _ _ H) as (Ewf & _).
+  assert (Hin : In s (ai_spikes i)) by (eapply nth_error_In; eauto).
+  pose proof (wf_spikes i (wf_amp_WF i Ewf) s Hin) as Hr.
+  assert (Hn : Z.of_nat (Z.to_nat s) < ai_nwav i) by (rewrite Z2Nat.id by lia; now apply Hlt).
+  assert (Hdt : nth_error (C05.Model.d_templates d) (Z.to_nat s) = Some (transpose (length (ai_wmi i)) t))
+    by (rewrite Hd, nth_error_map, Ht; reflexivity).
+  destruct (link_peak_amp i d (Z.to_nat s) t rec Ewf Ht Hn Hc Hnc HW Hsc Hdt Hrec) as (_ & Hpk & _).
+  exists q. split; [exact Hq|]. rewrite Eq, (IsPeakAmp_unique _ _ _ _ _ Hau Hpk). reflexivity.
+Qed.
 End Oracle.
